@@ -63,6 +63,76 @@ var knownRepeat = func() map[string][]string {
 	return m
 }()
 
+// chainedPart: a message whose AndX command has a SECOND command attached (Message.AddCommand twice - "open and
+// read", "session setup and tree connect"). Whatever the library does with the chain, encoding the unchanged
+// message again must return the same bytes, and the counts must describe what is emitted.
+func chainedPart(c *vf.Ctx, u *refsmb.Universe, t *smbgen.Tally) {
+	var followers []*refsmb.Cmd
+	for _, k := range u.Cmds {
+		if k.Name == "ReadAndxRequest" || k.Name == "EchoRequest" || k.Name == "ReadAndxResponse" || k.Name == "EchoResponse" {
+			followers = append(followers, k)
+		}
+	}
+	for _, cmd := range u.Cmds {
+		if !cmd.AndX {
+			continue
+		}
+		lat := refsmb.WithoutFormatVariants(cmd.Lattices(false))
+		for _, f := range followers {
+			if f.Reply != cmd.Reply {
+				continue
+			}
+			for _, full := range []bool{false, true} {
+				a, fa := cmd.Zero(lat), f.Zero(refsmb.WithoutFormatVariants(f.Lattices(false)))
+				if full {
+					a, fa = cmd.FullAssign(lat), f.FullAssign(refsmb.WithoutFormatVariants(f.Lattices(false)))
+				}
+				var outs [][]byte
+				var errs []error
+				pan, msg, where := vf.Try(func() {
+					x, err := a.Build()
+					if err != nil {
+						return
+					}
+					y, err := fa.Build()
+					if err != nil {
+						return
+					}
+					m := message.NewMessage()
+					if cmd.Reply {
+						m.Header.Flags = 0x80
+					}
+					m.AddCommand(x)
+					m.AddCommand(y)
+					for i := 0; i < 3; i++ {
+						b, err := m.Marshal()
+						outs = append(outs, b)
+						errs = append(errs, err)
+					}
+				})
+				if len(outs) == 0 && !pan {
+					continue
+				}
+				c.Case([]byte("chained"), []byte(cmd.Name+"+"+f.Name+a.Label()))
+				same := !pan && len(outs) == 3 && errs[0] == nil
+				for i := 1; same && i < 3; i++ {
+					same = errs[i] == nil && bytes.Equal(outs[i], outs[0])
+				}
+				if !pan && len(outs) == 3 && errs[0] != nil {
+					continue // a chain the library cannot encode at all: not a repeatability matter
+				}
+				t.Check(cmd.Name, "C03/repeat/"+cmd.Name+"/chained-message/marshal-repeatable", same, func() string {
+					var l []string
+					for i, o := range outs {
+						l = append(l, fmt.Sprintf("call %d: %d bytes %s (err %v)", i+1, len(o), vf.HexS(o), errs[i]))
+					}
+					return fmt.Sprintf("Message{%s{%s}} with %s{%s} attached by a second AddCommand, marshalled three times without any change in between: %s (panic=%v %s %s)", cmd.Name, a.Label(), f.Name, fa.Label(), strings.Join(l, "; "), pan, msg, where)
+				})
+			}
+		}
+	}
+}
+
 func main() { vf.Main("C03", "model_checking", run) }
 
 func run(c *vf.Ctx) {
@@ -83,6 +153,7 @@ func run(c *vf.Ctx) {
 	framingPart(c, u, tally)
 	limitsPart(c, u)
 	repeatPart(c, u, tally)
+	chainedPart(c, u, tally)
 	tally.Publish()
 	// the parameter and data blocks as objects of their own: call histories Set/Decode/Encode on ONE block object
 	s1 := smbhist.Data(c, "C03/history", c.Pick(3, 4))
